@@ -36,9 +36,9 @@ theorem TDVCS2LP_bilinear_BM10 (c : Consts) (m : CFFs) (pt : Pt) :
 theorem TDVCS2LP_not_bilinear_BM10ex :
     ∃ (c : Consts) (m : CFFs) (pt : Pt),
       BM10ex.CCALDVCSLP_im0_leff0_reff0 c (zeroAx m) pt ≠ 0 := by
-  refine ⟨⟨1, 1, 1, 1⟩, ⟨0, 0, 1, 0, 0, 0, 0, 0, 0, 0, 0, 0, 0, 0, 0, 0, 0, 0⟩,
-    ⟨4, 1/2, -1, 1/2, 1/4, 0, 0, 0, 0, 0, 0, 0, 0, 0, 0, 0, 0, 0, 0, 0, 0, 0⟩, ?_⟩
-  simp only [BM10ex.CCALDVCSLP_im0_leff0_reff0, bmk_sym, Gep.Cx.mk_re, Gep.Cx.mk_im, Gep.Cx.add_re, Gep.Cx.add_im,
+  refine ⟨⟨1, 1, 1, 1⟩, { CFFs.zero with ReH := 1 },
+    { Pt.zero with Q2 := 4, xB := 1/2, t := -1, y := 1/2, eps2 := 1/4 }, ?_⟩
+  simp only [BM10ex.CCALDVCSLP_im0_leff0_reff0, bmk_sym, Pt.zero, CFFs.zero, Gep.Cx.mk_re, Gep.Cx.mk_im, Gep.Cx.add_re, Gep.Cx.add_im,
     Gep.Cx.sub_re, Gep.Cx.sub_im, Gep.Cx.neg_re, Gep.Cx.neg_im, Gep.Cx.mul_re, Gep.Cx.mul_im, Gep.Cx.smul_re,
     Gep.Cx.smul_im, Gep.Cx.divR_re, Gep.Cx.divR_im, Gep.Cx.ofReal_re, Gep.Cx.ofReal_im]
   norm_num
